@@ -86,9 +86,30 @@ def run(ctx):
             # a lifecycle that hangs or raises is a harness/other-property matter, reported as machinery failure here
             raise runner.Machinery("lifecycle history %s did not complete: rc=%s %s" % (r["hist"], r.get("rc"), r["error"][-600:]))
         once, many = r["once"], r["many"]
-        diffs = {k: (once[k], many[k]) for k in ("fds", "threads", "children", "sems") if many[k] > once[k]}
-        if many["zombies"]:
-            diffs["zombies"] = many["zombies"]
+
+        def grew(once, many, reps):
+            # accumulation = at least one unit per repetition (a release that is merely late shows up as a bounded excess)
+            d = {k: (once[k], many[k]) for k in ("fds", "threads", "children", "sems") if many[k] - once[k] >= reps}
+            if many["zombies"]:
+                d["zombies"] = many["zombies"]
+            return d
+        diffs = grew(once, many, reps)
+        if diffs:
+            # confirmation in a fresh interpreter with twice as many repetitions: the growth must scale
+            cf_in = os.path.join(ctx.work, "lc_confirm_%d.jsonl" % r["i"])
+            cf_out = os.path.join(ctx.work, "lc_confirm_%d.json" % r["i"])
+            with open(cf_in, "w") as fh:
+                fh.write(json.dumps(dict(i=r["i"], hist=r["hist"])) + "\n")
+            runner.run_child([runner.PY, "-m", "engine.real.lifecycle_real", cf_in, cf_out, str(2 * reps)], cwd=runner.ROOT, timeout=2400,
+                             out_path=os.path.join(ctx.work, "lc_confirm_%d.txt" % r["i"]))
+            r2 = json.load(open(cf_out))[0] if os.path.exists(cf_out) else {}
+            diffs2 = grew(r2["once"], r2["many"], 2 * reps) if "once" in r2 else {}
+            if not diffs2:
+                ctx.notes.append("history %s: growth %s was not reproduced with %d repetitions (%s -> %s): a late release, not an accumulation"
+                                 % (r["hist"], diffs, 2 * reps, r2.get("once"), r2.get("many")))
+                diffs = {}
+            else:
+                diffs = dict(first=diffs, confirmed=diffs2)
         if diffs:
             ctx.violation("C20 history %s repeated %d more times: resource counts grew (after once, after all): %s; threads: %s" % (
                 r["hist"], reps, diffs, many["thread_names"]), dict(engine="E-REAL", hist=r["hist"], once=once, many=many,
